@@ -8,17 +8,22 @@
   C03.6 every compression algorithm has inverse compress / decompress arms
   C03.7 operation wiring: one cipher and one session key reach the ESK packet and the container (with C13.2)
   C03.8 consumers of the heterogeneous session-key list filter by packet class before touching class-specific fields
+
+All rules read interpreter VALUES: parameters are bound by position to role names (sa/taint.run_roles), locally constructed objects
+are named after their class, byte terms are compared in normal form, integer expressions by folding at sample points.  No rule
+compares source text, local names or statement shapes.
 """
 import ast
-import re
 
-from sa.interp import Interp, Scenario, Sym, Const, Bytes, Enum, render, render_items, merge_consts, render_item
-from sa.loader import AnalysisError, dotted
-from sa.templates import C, INT, SYM, BYTE, Pred, match
+from sa.interp import Sym, Const, Bytes, Obj, render, render_items, merge_consts, sl, lin_add
+from sa.loader import AnalysisError
 from sa.sigdata import enum_const
-from sa import s2kshape, families
+from sa import families, taint
+from sa.taint import run_roles, norm_term, split_items, split_args, concat_parts, int_equiv, bind_call, call_text
 
-noinline = lambda f: False  # noqa: E731
+KEYSUM = 'sum(symkey)'
+CT_ENCRYPT = ('self.ct.encrypt', 'type(self.ct).encrypt', 'self.ct.__class__.encrypt')        # encrypt is a classmethod of the ciphertext class
+BITS = [64, 128, 192, 256]
 
 
 def run(rep, prog, tier):
@@ -39,96 +44,287 @@ def run(rep, prog, tier):
     ecdh(rep, prog)
     compression(rep, prog)
     families.check_operation_wiring(rep, prog, 'C03.7')
+    families.check_readdressing(rep, prog, 'C03.7')
+    families.check_candidate_search(rep, prog, 'C03.8')
+    # the passphrase packet is only interoperable if the S2K it carries is the RFC 4880 3.7.1 function (shared with C12.1 / C06.8)
+    from rules import C12
+    C12.check_derive_key(rep, prog, 'C03.3', 'C03.3')
+    decrypt_wiring(rep, prog)
     families.check_sessionkey_consumers(rep, prog, 'C03.8')
     families.check_pkesk_selection(rep, prog, 'C03.8')
+
+
+def _events_order(s, first, second):
+    """Does an event matching `first` precede every event matching `second` (and both exist)?"""
+    i1 = [i for i, e in enumerate(s.events) if first(e)]
+    i2 = [i for i, e in enumerate(s.events) if second(e)]
+    return bool(i1) and bool(i2) and min(i1) < min(i2)
+
+
+def _call(e, name):
+    return e[0] == 'call' and e[1] == name
+
+
+def _store(e, path):
+    return e[0] == 'store' and e[1] == path
+
+
+def decrypt_wiring(rep, prog):
+    """Both decrypt operations hand the container exactly what decrypt_sk recovered: (key, cipher) = (R[1], R[0]) of ONE decrypt_sk result."""
+    for cls, roles, subject in (('PGPMessage', ('self', 'passphrase'), 'self'), ('PGPKey', ('self', 'message'), 'message')):
+        fi = prog.method('pgpy.pgp', cls, 'decrypt')
+        rep.saw(fn=fi)
+        seen = 0
+        for s in run_roles(prog, fi, roles, bind={'self.is_encrypted': Const(True), 'message.is_encrypted': Const(True)}):
+            dsk = [c for c in s.calls if c[0].endswith('.decrypt_sk')]
+            dec = [c for c in s.calls if c[0] == '%s.message.decrypt' % subject]
+            if s.raised or (not dsk and not dec):
+                continue
+            seen += 1
+            R = [call_text(c) for c in dsk]
+            names = prog.method('pgpy.packet.packets', 'IntegrityProtectedSKEDataV1', 'decrypt').params[1:3]      # (key, alg)
+            da = bind_call(dec[0], names) if len(dec) == 1 else {}
+            ok = len(dec) == 1 and ((set(da) == set(names) and len(names) == 2 and
+                                     any([da[names[0]], da[names[1]]] == ['%s[1]' % r, '%s[0]' % r] for r in R)) or
+                                    (not dec[0][2] and any(dec[0][1] in (['*reversed(%s)' % r], ['*%s[::-1]' % r]) for r in R)))
+            rep.check(ok, 'C03.7', '%s.decrypt' % cls, 'container.decrypt(%s)' % (', '.join(dec[0][1])[:120] if dec else None),
+                      'the container must be decrypted with the session key and the cipher that decrypt_sk recovered (in that order)',
+                      where=fi.where, expected='message.decrypt(R[1], R[0]) with R = <esk>.decrypt_sk(...)', found=dec[0][1] if dec else None)
+        if not seen:
+            raise AnalysisError('%s.decrypt: no path that recovers a session key' % cls)
+
+
+# ------------------------------------------------------------------------------------------------ C03.1
+def m_value_ok(text):
+    """cipher id (1 octet) || session key || INT(2; sum(key) mod 65536) - the checksum expression is folded, not compared."""
+    its = split_items(text)
+    if len(its) != 3 or its[0] != 'BYTE(symalg)' or its[1] != 'symkey':
+        return False
+    if not (its[2].startswith('INT(2;') and its[2].endswith(')')):
+        return False
+    chk = its[2][len('INT(2;'):-1].replace('functools.reduce(operator.add, symkey, 0)', KEYSUM).replace('functools.reduce(operator.add, symkey)', KEYSUM)
+    return int_equiv(chk, lambda S: S % 65536, {KEYSUM: ('S', [0, 1, 255, 65535, 65536, 65537, 131071, 200000, 16711680])}) is True
 
 
 def pkesk(rep, prog):
     fi = prog.method('pgpy.packet.packets', 'PKESessionKeyV3', 'encrypt_sk')
     rep.saw(fn=fi)
-    pk = prog.cls('pgpy.constants', 'PubKeyAlgorithm').enum_members()
+    W = 'PKESessionKeyV3.encrypt_sk'
     for alg in ('RSAEncryptOrSign', 'ECDH'):
-        sc = Scenario(bind={'self.pkalg': Const(Enum('PubKeyAlgorithm', alg, pk[alg]))}, inline=noinline)
-        outs = Interp(prog, sc).run(fi)
+        outs = run_roles(prog, fi, ('self', 'pk', 'symalg', 'symkey'), bind={'self.pkalg': enum_const(prog, 'PubKeyAlgorithm', alg)})
         rep.analysed['paths'] += len(outs)
         for s in outs:
-            enc = [c for c in s.calls if c[0] == 'self.ct.encrypt']
+            enc = [c for c in s.calls if c[0] in CT_ENCRYPT]
             if len(enc) != 1:
-                rep.violation('C03.1', 'PKESessionKeyV3.encrypt_sk', '%s: %d encrypt calls' % (alg, len(enc)), 'expected one public-key encryption',
-                              where=fi.where, scenario=alg)
+                rep.violation('C03.1', W, '%s: %d encrypt calls' % (alg, len(enc)), 'expected one public-key encryption', where=fi.where, scenario=alg)
                 continue
-            a = enc[0][1]
-            m = re.match(r'^\*\((.*?)(, padding\.PKCS1v15\(\))?\)$', a[1]) if len(a) > 1 else None
-            mv = m.group(1) if m else None
+            a = list(enc[0][1])
+            mv = norm_term(a[1]) if len(a) > 1 else None
             exp = 'INT(1;symalg) symkey INT(2;(sum(symkey) % 65536))'
-            rep.check(mv == exp, 'C03.1', 'PKESessionKeyV3.encrypt_sk', '%s: m = %s' % (alg, mv),
+            rep.check(mv is not None and m_value_ok(mv), 'C03.1', W, '%s: m = %s' % (alg, mv),
                       'the value encrypted must be cipher id || session key || two-octet checksum (RFC 4880 5.1)', where=fi.where,
                       expected=exp, found=mv, scenario=alg)
             if alg == 'RSAEncryptOrSign':
-                rep.check(a[0] == 'pk.keymaterial.__pubkey__().encrypt' and m is not None and m.group(2) is not None, 'C03.1',
-                          'PKESessionKeyV3.encrypt_sk', 'RSA: %s' % a[0], 'RSA must encrypt with the recipient public key under PKCS#1 v1.5',
-                          where=fi.where, scenario=alg)
+                rep.check(a[0] == 'pk.keymaterial.__pubkey__().encrypt' and a[2:] == ['padding.PKCS1v15()'] and not enc[0][2], 'C03.1', W,
+                          'RSA: %s' % a[0], 'RSA must encrypt with the recipient public key under PKCS#1 v1.5', where=fi.where, scenario=alg,
+                          found=a[:1] + a[2:])
+            else:
+                rep.check(a[0] == 'pk' and len(a) == 2 and not enc[0][2], 'C03.1', W, 'ECDH: %s' % a[0],
+                          'ECDH must wrap the m-value for the recipient key itself', where=fi.where, scenario=alg, found=a[:1] + a[2:])
             stores = [v for p, v, l, _ in s.stores if p == 'self.ct']
-            rep.check(len(stores) == 1 and stores[0].startswith('self.ct.encrypt('), 'C03.1', 'PKESessionKeyV3.encrypt_sk',
+            rep.check(stores == [call_text(enc[0])] or stores == ['self.ct.encrypt(%s)' % ', '.join(enc[0][1])], 'C03.1', W,
                       '%s: self.ct = %s' % (alg, stores[0][:60] if stores else None), 'the packet must carry the result of the encryption',
                       where=fi.where, scenario=alg)
-            rep.check(any(c[0] == 'self.update_hlen' for c in s.calls), 'C03.1', 'PKESessionKeyV3.encrypt_sk', '%s: update_hlen' % alg,
+            rep.check(_events_order(s, lambda e: _store(e, 'self.ct'), lambda e: _call(e, 'self.update_hlen')), 'C03.1', W, '%s: update_hlen' % alg,
                       'the header length must be recomputed after the ciphertext is set', where=fi.where, scenario=alg)
     # RSA decrypt side: the ciphertext integer is left-padded to the modulus size
     fd = prog.method('pgpy.packet.packets', 'PKESessionKeyV3', 'decrypt_sk')
-    sc = Scenario(bind={'self.pkalg': Const(Enum('PubKeyAlgorithm', 'RSAEncryptOrSign', pk['RSAEncryptOrSign']))}, inline=noinline)
-    for s in Interp(prog, sc).run(fd):
+    rep.saw(fn=fd)
+    CT = sl('self.ct.me_mod_n.to_mpibytes()', (2, ''))
+    KS = 'pk.keymaterial.__privkey__().key_size'
+    seen = False
+    for s in run_roles(prog, fd, ('self', 'pk'), bind={'self.pkalg': enum_const(prog, 'PubKeyAlgorithm', 'RSAEncryptOrSign')}):
         dec = [c for c in s.calls if c[0] == 'self.ct.decrypt']
-        if dec:
-            a = dec[0][1]
-            exp = ('*(REP(C(00);((pk.keymaterial.__privkey__().key_size // 8) - len(SLICE(self.ct.me_mod_n.to_mpibytes();2;)))) '
-                   'SLICE(self.ct.me_mod_n.to_mpibytes();2;), padding.PKCS1v15())')
-            rep.check(a[0] == 'pk.keymaterial.__privkey__().decrypt' and a[1] == exp, 'C03.1', 'PKESessionKeyV3.decrypt_sk',
-                      'RSA decrypt args %s' % a[1][:80], 'RSA must decrypt the MPI octets left-padded to the modulus size under PKCS#1 v1.5',
-                      where=fd.where, expected=exp, found=a[1])
-            break
+        if not dec:
+            continue
+        seen = True
+        a = list(dec[0][1])
+        its = split_items(a[1]) if len(a) > 1 else []
+        pad_ok = False
+        if len(its) == 2 and its[1] == CT and its[0].startswith('REP(C(00);') and its[0].endswith(')'):
+            n = its[0][len('REP(C(00);'):-1]
+            pad_ok = int_equiv(n, lambda K, L: K // 8 - L, {KS: ('K', [1024, 2048, 3072, 4096]), 'len(%s)' % CT: ('L', [0, 127, 128, 256, 512])}) is True
+        elif len(its) == 1:
+            r = split_args(its[0])          # <ct>.rjust(<modulus octets>, b'\0')
+            pad_ok = r is not None and r[0] == CT + '.rjust' and len(r[1]) == 2 and r[1][1] == 'C(00)' and \
+                int_equiv(r[1][0], lambda K: K // 8, {KS: ('K', [1024, 2048, 3072, 4096])}) is True
+        rep.check(a[0] == 'pk.keymaterial.__privkey__().decrypt' and pad_ok and a[2:] == ['padding.PKCS1v15()'], 'C03.1', 'PKESessionKeyV3.decrypt_sk',
+                  'RSA decrypt args %s' % ', '.join(a)[:100], 'RSA must decrypt the MPI octets left-padded to the modulus size under PKCS#1 v1.5',
+                  where=fd.where, expected='(privkey.decrypt, 00 * (key_size // 8 - len(ct)) || ct, PKCS1v15)', found=a)
+        break
+    if not seen:
+        raise AnalysisError('PKESessionKeyV3.decrypt_sk: no self.ct.decrypt call on the RSA arm')
+    # reader layout: octet 0 is the cipher, the next key_size // 8 octets are the key (the checksum guard itself belongs to C04)
+    nret = 0
+    for alg in ('RSAEncryptOrSign', 'ECDH'):
+        for s in run_roles(prog, fd, ('self', 'pk'), bind={'self.pkalg': enum_const(prog, 'PubKeyAlgorithm', alg)}):
+            dec = [c for c in s.calls if c[0] == 'self.ct.decrypt']
+            if s.raised or len(dec) != 1 or s.ret is None:
+                continue
+            nret += 1
+            M = call_text(dec[0])
+            A = 'SymmetricKeyAlgorithm(%s[0])' % M
+            r = render(s.ret)
+            ok = False
+            m2 = split_args('T' + r) if r.startswith('(') else None       # '(a, b)' -> the two components
+            if m2 is not None and len(m2[1]) == 2 and m2[1][0] == A:
+                sl_ = m2[1][1]
+                head = 'SLICE(%s;1;' % M
+                ok = sl_.startswith(head) and sl_.endswith(')') and \
+                    int_equiv(sl_[len(head):-1], lambda K: K // 8 + 1, {A + '.key_size': ('K', BITS)}) is True
+            rep.check(ok, 'C03.1', 'PKESessionKeyV3.decrypt_sk', '%s: return %s' % (alg, r.replace(M, 'M')[:120]),
+                      'the reader must take octet 0 of m as the cipher and the following key_size // 8 octets as the session key (what encrypt_sk wrote)',
+                      where=fd.where, expected='(SymmetricKeyAlgorithm(M[0]), M[1:1 + key_size // 8])', found=r.replace(M, 'M'), scenario=alg)
+    if not nret:
+        raise AnalysisError('PKESessionKeyV3.decrypt_sk: no returning path')
+    # the ciphertext object the packet gets for each algorithm (pkalg setter): RSA -> RSACipherText, ECDH -> ECDHCipherText
+    pc = prog.cls('pgpy.packet.packets', 'PKESessionKeyV3')
+    pp = pc.find_prop('pkalg')
+    setters = list(pp.setters.values()) if pp is not None else []
+    if not setters:
+        raise AnalysisError('PKESessionKeyV3.pkalg setter vanished')
+    fs = setters[0]
+    rep.saw(fn=fs)
+    for alg, want in (('RSAEncryptOrSign', 'RSACipherText'), ('ECDH', 'ECDHCipherText')):
+        got = set()
+        outs = [s for s in run_roles(prog, fs, ('self', 'val'), args={'val': enum_const(prog, 'PubKeyAlgorithm', alg)}) if not s.raised]
+        plain = [s for s in outs if not any(f[0].startswith('except ') for f in s.facts)]
+        for s in (plain or outs):           # an `except KeyError:` arm around the table lookup is only entered when the lookup fails
+            st = [(v, val) for p, v, l, val in s.stores if p == 'self.ct']
+            got.add(st[-1][1].cls.name if st and isinstance(st[-1][1], Obj) and st[-1][1].cls is not None else (st[-1][0] if st else None))
+        rep.check(got == {want}, 'C03.1', 'PKESessionKeyV3.pkalg', '%s -> %s' % (alg, sorted(map(str, got))),
+                  'a session-key packet for %s must carry a %s (the class whose encrypt/decrypt pair is checked here)' % (alg, want),
+                  where=fs.where, expected=want, found=sorted(map(str, got)), scenario=alg)
+    # the packet body on the wire: 8-octet key id, algorithm octet, the ciphertext fields (RFC 4880 5.1)
+    fb = prog.method('pgpy.packet.packets', 'PKESessionKeyV3', '__bytearray__')
+    rep.saw(fn=fb)
+    for s in run_roles(prog, fb, ('self',), inline=None, axioms={'(self.ct is not None)': True, '(self.ct is None)': False}):
+        if s.raised:
+            continue
+        r = split_items(render(s.ret))
+        kid = split_args(r[1]) if len(r) == 4 else None
+        ok = len(r) == 4 and r[0] == 'self.header.__bytearray__()' and r[2] == 'BYTE(self.pkalg)' and r[3] == 'self.ct.__bytearray__()' and \
+            kid is not None and kid[0] == 'binascii.unhexlify' and len(kid[1]) == 1 and \
+            (kid[1][0] == 'self.encrypter' or (split_args(kid[1][0]) or ('',))[0] == 'self.encrypter.encode')
+        rep.check(ok, 'C03.1', 'PKESessionKeyV3.__bytearray__', 'return %s' % ' '.join(r)[:160],
+                  'the packet is header || the whole 8-octet recipient key id || algorithm octet || encrypted session key fields',
+                  where=fb.where, expected='header unhexlify(encrypter) BYTE(pkalg) ct', found=r)
+    # RSACipherText: C = MPI(big-endian integer of encfn(m, padding)); decrypt hands the same arguments to the private operation
+    re_ = prog.method('pgpy.packet.fields', 'RSACipherText', 'encrypt')
+    rd_ = prog.method('pgpy.packet.fields', 'RSACipherText', 'decrypt')
+    rep.saw(fn=re_)
+    rep.saw(fn=rd_)
+    for s in run_roles(prog, re_, ('cls', 'encfn'), vararg=['m', 'pad']):
+        if s.raised:
+            continue
+        st = [taint.expand_objs(s, v) for p, v, l, _ in s.stores if p.endswith('.me_mod_n')]
+        c = split_args(st[0]) if len(st) == 1 else None
+        inner = split_args(c[1][0]) if c is not None and c[0] == 'MPI' and len(c[1]) == 1 else None
+        ok = inner is not None and ((inner[0].endswith('.bytes_to_int') and inner[1] == ['encfn(m, pad)']) or
+                                    (inner[0] == 'int.from_bytes' and inner[1] in (['encfn(m, pad)', "'big'"], ['encfn(m, pad)', "byteorder='big'"])))
+        r = render(s.ret)
+        rep.check(ok and st and (r + '.me_mod_n') in [p for p, v, l, _ in s.stores], 'C03.1', 'RSACipherText.encrypt', 'me_mod_n = %s' % st,
+                  'the RSA ciphertext is the big-endian integer of the public operation applied to (m, padding), returned in the new object',
+                  where=re_.where, expected='MPI(bytes_to_int(encfn(m, pad)))', found=st)
+    for s in run_roles(prog, rd_, ('self', 'decfn'), vararg=['c', 'pad']):
+        if s.raised:
+            continue
+        r = render(s.ret)
+        rep.check(r == 'decfn(c, pad)', 'C03.1', 'RSACipherText.decrypt', 'return %s' % r,
+                  'RSA decryption returns exactly what the private operation yields for (ciphertext octets, padding)', where=rd_.where,
+                  expected='decfn(c, pad)', found=r)
 
 
+# ------------------------------------------------------------------------------------------------ C03.2
 def seipd(rep, prog):
     fi = prog.method('pgpy.packet.packets', 'IntegrityProtectedSKEDataV1', 'encrypt')
     rep.saw(fn=fi)
-    outs = Interp(prog, Scenario(inline=noinline)).run(fi)
-    for s in outs:
-        enc = [c for c in s.calls if c[0] == '_encrypt']
+    W = 'IntegrityProtectedSKEDataV1.encrypt'
+    PREFIX = ['alg.gen_iv()', sl('alg.gen_iv()', (-2, '')), 'data']
+    for s in run_roles(prog, fi, ('self', 'key', 'alg', 'data')):
+        enc = taint.calls_named(s, '_encrypt')
         if len(enc) != 1:
             raise AnalysisError('IntegrityProtectedSKEDataV1.encrypt: expected one _encrypt call')
-        pt = enc[0][1][0]
-        exp_pt = 'alg.gen_iv() SLICE(alg.gen_iv();-2;) data mdc.__bytes__()'
-        rep.check(pt == exp_pt and enc[0][1][1:] == ['key', 'alg'], 'C03.2', 'IntegrityProtectedSKEDataV1.encrypt', 'plaintext %s' % pt,
+        a = list(enc[0][1]) + [None] * 3
+        its = split_items(a[0])
+        mdcs = [n for n in taint.objects(s) if taint.obj_of_class(s, n, 'MDC')]
+        ser = ['%s.__bytes__()' % n for n in mdcs] + ['%s.__bytearray__()' % n for n in mdcs] + list(mdcs)     # bytes(mdc) renders as the object
+        IV = taint.random_prefix(its, 'alg', 'data')
+        PREFIX = its[:3] if IV is not None else PREFIX
+        ok = len(mdcs) == 1 and IV is not None and len(its) == 4 and its[3] in ser and taint.n_draws(s) == 1
+        rep.check(ok and a[1] == 'key' and a[2] == 'alg' and (a[3] in (None, 'None')) and not enc[0][2], 'C03.2', W, 'plaintext %s' % a[0],
                   'plaintext = random block || its last two octets || data || MDC packet, encrypted under (key, alg) with zero IV',
-                  where=fi.where, expected=exp_pt, found=pt)
-        mdc = [v for p, v, l, _ in s.stores if p == 'mdc.mdc']
-        exp_mdc = 'binascii.hexlify(HASH(sha1;alg.gen_iv() SLICE(alg.gen_iv();-2;) data C(d314)))'
-        rep.check(mdc == [exp_mdc], 'C03.2', 'IntegrityProtectedSKEDataV1.encrypt', 'mdc = %s' % mdc,
+                  where=fi.where, expected=' '.join(PREFIX) + ' <MDC>.__bytes__()', found=enc[0][1])
+        mdc = [norm_term(v) for p, v, l, _ in s.stores if p.endswith('.mdc') and p[:-4] in mdcs]
+        H = 'HASH(sha1;%s C(d314))' % ' '.join(PREFIX)
+        exp_mdc = 'binascii.hexlify(%s)' % H
+        # hexlify(digest) and hexdigest().encode(<ascii-compatible>) are the same 40 octets
+        same = len(mdc) == 1 and (mdc[0] == exp_mdc or (split_args(mdc[0]) or ('', []))[0] == 'hex(%s).encode' % H)
+        rep.check(same, 'C03.2', W, 'mdc = %s' % mdc,
                   'the MDC is SHA-1 over prefix || data || d3 14 (RFC 4880 5.13)', where=fi.where, expected=exp_mdc, found=mdc)
-        order = [e[1] for e in s.events if e[0] == 'call' and e[1] in ('mdc.update_hlen', 'mdc.__bytes__')]
-        rep.check(order == ['mdc.update_hlen', 'mdc.__bytes__'], 'C03.2', 'IntegrityProtectedSKEDataV1.encrypt', 'order %s' % order,
+        order = []
+        for e in s.events:
+            if e[0] == 'call' and e[1].split('.')[0] in mdcs and e[1].split('.')[-1] in ('update_hlen', '__bytes__', '__bytearray__'):
+                order.append('update_hlen' if e[1].endswith('.update_hlen') else 'serialise')
+            elif e[0] == 'call' and e[1] in ('bytes', 'bytearray') and len(e[2]) == 1 and e[2][0] in mdcs:
+                order.append('serialise')
+        rep.check(order == ['update_hlen', 'serialise'], 'C03.2', W, 'order %s' % order,
                   'the MDC packet header must be recomputed before it is serialised', where=fi.where)
         st = [v for p, v, l, _ in s.stores if p == 'self.ct']
-        rep.check(len(st) == 1 and st[0].startswith('_encrypt('), 'C03.2', 'IntegrityProtectedSKEDataV1.encrypt', 'self.ct', 'packet carries the ciphertext',
-                  where=fi.where)
+        rep.check(st == [call_text(enc[0])] and _events_order(s, lambda e: _store(e, 'self.ct'), lambda e: _call(e, 'self.update_hlen')), 'C03.2', W,
+                  'self.ct', 'packet carries the ciphertext and its header length is recomputed afterwards', where=fi.where)
+    # decrypt is the inverse: same cipher call, the block_size // 8 + 2 prefix octets are dropped (the MDC / quick-check guards are C04's)
+    fdec = prog.method('pgpy.packet.packets', 'IntegrityProtectedSKEDataV1', 'decrypt')
+    rep.saw(fn=fdec)
+    nret = 0
+    for s in run_roles(prog, fdec, ('self', 'key', 'alg')):
+        if s.raised or s.ret is None:
+            continue
+        nret += 1
+        dcalls = taint.calls_named(s, '_decrypt')
+        D = call_text(dcalls[0]) if len(dcalls) == 1 else None
+        r = render(s.ret)
+        ok = D is not None and (list(dcalls[0][1]) + [None])[:4] in (['self.ct', 'key', 'alg', None], ['self.ct', 'key', 'alg', 'None']) and not dcalls[0][2]
+        head = 'SLICE(%s;' % D
+        ok = ok and r.startswith(head) and r.endswith(';)') and \
+            int_equiv(r[len(head):-2], lambda B: B // 8 + 2, {'alg.block_size': ('B', BITS)}) is True
+        rep.check(ok, 'C03.2', 'IntegrityProtectedSKEDataV1.decrypt', 'return %s' % r[:120],
+                  'decryption must undo encryption: CFB-decrypt under (key, alg) with zero IV and drop the block_size // 8 + 2 prefix octets',
+                  where=fdec.where, expected='_decrypt(self.ct, key, alg)[block_size // 8 + 2:]', found=r)
+    if not nret:
+        raise AnalysisError('IntegrityProtectedSKEDataV1.decrypt: no returning path')
     # the MDC packet serialises as d3 14 || digest: tag 0x13, new format default, 20 octets < 192 -> one length octet
     mdc = prog.cls('pgpy.packet.packets', 'MDC')
     tid = mdc.attrs.get('__typeid__')
-    rep.check(tid is not None and ast.literal_eval(tid) == 0x13, 'C03.2', 'MDC.__typeid__', '__typeid__ = %s' % (ast.unparse(tid) if tid else None),
-              'the MDC packet tag is 19 (0x13)', where=mdc.where)
+    try:
+        tidv = ast.literal_eval(tid) if tid is not None else None
+    except ValueError:
+        tidv = None
+    rep.check(tidv == 0x13, 'C03.2', 'MDC.__typeid__', '__typeid__ = %s' % tidv, 'the MDC packet tag is 19 (0x13)', where=mdc.where)
     mb = mdc.methods.get('__bytearray__')
-    for s in Interp(prog, Scenario()).run(mb):
-        r = render(s.ret)
-        rep.check(r == 'self.header.__bytearray__() binascii.unhexlify(self.mdc)', 'C03.2', 'MDC.__bytearray__', 'return %s' % r,
+    if mb is None:
+        raise AnalysisError('MDC.__bytearray__ vanished')
+    for s in run_roles(prog, mb, ('self',), inline=None):
+        r = split_items(render(s.ret))
+        rep.check(r == ['self.header.__bytearray__()', 'binascii.unhexlify(self.mdc)'], 'C03.2', 'MDC.__bytearray__', 'return %s' % ' '.join(r),
                   'the MDC packet is its header followed by the 20 digest octets', where=mb.where, found=r)
     hi = prog.method('pgpy.types', 'Header', '__init__')
-    lf = [ast.literal_eval(n.value) for n in ast.walk(hi.node) if isinstance(n, ast.Assign) and
-          ast.unparse(n.targets[0]) == 'self._lenfmt']
-    rep.check(lf == [1], 'C03.2', 'Header.__init__', '_lenfmt default %s' % lf, 'new packets must default to the new header format (0xC0 | tag)',
-              where=hi.where)
+    for s in run_roles(prog, hi, ('self',)):
+        lf = [v for p, v, l, _ in s.stores if p == 'self._lenfmt']
+        rep.check(lf == ['1'], 'C03.2', 'Header.__init__', '_lenfmt default %s' % lf, 'new packets must default to the new header format (0xC0 | tag)',
+                  where=hi.where)
     hb = prog.method('pgpy.packet.types', 'Header', '__bytearray__')
-    for s in Interp(prog, Scenario(bind={'self._lenfmt': Const(1), 'self.tag': Const(0x13), 'self.length': Const(20)})).run(hb):
+    for s in run_roles(prog, hb, ('self',), inline=None, bind={'self._lenfmt': Const(1), 'self.tag': Const(0x13), 'self.length': Const(20)}):
         its = merge_consts(s.ret.items) if isinstance(s.ret, Bytes) else []
         r = render_items(its)
         # INT(1;211) = d3 ; length: first alternative of encode_length for 20 < 192 -> INT(1;20)
@@ -138,127 +334,230 @@ def seipd(rep, prog):
                   expected='INT(1;211) INT(1;20)', found=r)
 
 
+# ------------------------------------------------------------------------------------------------ C03.3
 def skesk(rep, prog):
     fe = prog.method('pgpy.packet.packets', 'SKESessionKeyV4', 'encrypt_sk')
     fd = prog.method('pgpy.packet.packets', 'SKESessionKeyV4', 'decrypt_sk')
     rep.saw(fn=fe)
     rep.saw(fn=fd)
-    for s in Interp(prog, Scenario(inline=noinline)).run(fe):
+    ALG = 'self.s2k.encalg'             # the packet's cipher: the symalg property is read through (inline_props)
+    KEK = 'self.s2k.derive_key(passphrase)'
+    for s in run_roles(prog, fe, ('self', 'passphrase', 'sk'), inline_props={'symalg'}):
+        enc = taint.calls_named(s, '_encrypt')
+        a = (list(enc[0][1]) + [None] * 4)[:4] if len(enc) == 1 else [None] * 4
+        ok = len(enc) == 1 and split_items(a[0]) == ['BYTE(%s)' % ALG, 'sk'] and a[1] == KEK and a[2] == ALG and a[3] in (None, 'None') and not enc[0][2]
         ct = [v for p, v, l, _ in s.stores if p == 'self.ct']
-        exp = '_encrypt(INT(1;self.symalg) sk, self.s2k.derive_key(passphrase), self.symalg)'
-        rep.check(ct == [exp], 'C03.3', 'SKESessionKeyV4.encrypt_sk', 'ct = %s' % ct,
+        rep.check(ok and ct == [call_text(enc[0])], 'C03.3', 'SKESessionKeyV4.encrypt_sk', 'ct = %s' % ct,
                   'the encrypted session key is CFB(cipher id || key) under the S2K-derived key with the packet\'s cipher (RFC 4880 5.3)',
-                  where=fe.where, expected=exp, found=ct)
-        rep.check(any(c[0] == 'self.update_hlen' for c in s.calls), 'C03.3', 'SKESessionKeyV4.encrypt_sk', 'update_hlen',
-                  'header length recomputed after the ciphertext is set', where=fe.where)
-    for s in Interp(prog, Scenario(inline=noinline, axioms={'self.ct': True})).run(fd):
+                  where=fe.where, expected='_encrypt(INT(1;%s) sk, %s, %s)' % (ALG, KEK, ALG), found=ct)
+        rep.check(_events_order(s, lambda e: _store(e, 'self.ct'), lambda e: _call(e, 'self.update_hlen')), 'C03.3', 'SKESessionKeyV4.encrypt_sk',
+                  'update_hlen', 'header length recomputed after the ciphertext is set', where=fe.where)
+    D = '_decrypt(self.ct, %s, %s)' % (KEK, ALG)
+    for s in run_roles(prog, fd, ('self', 'passphrase'), inline_props={'symalg'}, axioms={'self.ct': True}):
         r = render(s.ret)
-        D = '_decrypt(self.ct, self.s2k.derive_key(passphrase), self.symalg)'
-        exp = '(SymmetricKeyAlgorithm(%s[0]), SLICE(%s;1;))' % (D, D)
+        exp = '(SymmetricKeyAlgorithm(%s[0]), %s)' % (D, sl(D, (1, '')))
         rep.check(r == exp, 'C03.3', 'SKESessionKeyV4.decrypt_sk', 'return %s' % r.replace(D, 'D'),
                   'the reader must take octet 0 as the cipher and the remaining octets as the key, from the same S2K key and cipher',
                   where=fd.where, expected=exp.replace(D, 'D'), found=r.replace(D, 'D'))
-    for s in Interp(prog, Scenario(inline=noinline, axioms={'self.ct': False})).run(fd):
+    for s in run_roles(prog, fd, ('self', 'passphrase'), inline_props={'symalg'}, axioms={'self.ct': False}):
         r = render(s.ret)
-        rep.check(r == '(self.symalg, self.s2k.derive_key(passphrase))', 'C03.3', 'SKESessionKeyV4.decrypt_sk', 'no-ESK arm %s' % r,
+        rep.check(r == '(%s, %s)' % (ALG, KEK), 'C03.3', 'SKESessionKeyV4.decrypt_sk', 'no-ESK arm %s' % r,
                   'without an encrypted session key the S2K output is the session key', where=fd.where, found=r)
     # S2K specifier offset: writer drops the usage octet, reader re-inserts one
     cb = prog.method('pgpy.packet.packets', 'SKESessionKeyV4', '__bytearray__')
-    for s in Interp(prog, Scenario()).run(cb):
-        r = render(s.ret)
-        rep.check(r == 'self.header.__bytearray__() SLICE(self.s2k.__bytearray__();1;) self.ct', 'C03.3', 'SKESessionKeyV4.__bytearray__',
-                  'return %s' % r, 'the packet body is cipher id, S2K specifier (without the usage octet), encrypted key', where=cb.where, found=r)
+    for s in run_roles(prog, cb, ('self',), inline=None):
+        r = split_items(render(s.ret))
+        rep.check(r == ['self.header.__bytearray__()', sl('self.s2k.__bytearray__()', (1, '')), 'self.ct'], 'C03.3', 'SKESessionKeyV4.__bytearray__',
+                  'return %s' % ' '.join(r), 'the packet body is cipher id, S2K specifier (without the usage octet), encrypted key', where=cb.where,
+                  found=r)
     cp = prog.method('pgpy.packet.packets', 'SKESessionKeyV4', 'parse')
-    src = ast.unparse(cp.node)
-    rep.check('packet.insert(0, 255)' in src and 'self.s2k.parse(packet, iv=False)' in src and 'self.header.length - len(self.s2k)' in src,
-              'C03.3', 'SKESessionKeyV4.parse', 'usage octet re-inserted, no IV, remainder = header.length - len(s2k)',
-              'the reader must mirror the writer: one synthetic usage octet stands in for the version octet', where=cp.where)
+    rep.saw(fn=cp)
+    for s in run_roles(prog, cp, ('self', 'packet'), forward_stores=False, model_del=False):
+        if s.raised:
+            continue
+        ev = [e for e in s.events if e[0] in ('call', 'store', 'del')]
+        ins = [i for i, e in enumerate(ev) if (_call(e, 'packet.insert') and e[2] == ['0', '255']) or
+               (_store(e, sl('packet', ('', 0))) and norm_term(e[2]) == 'C(ff)')]          # packet.insert(0, 255) / packet[:0] = b'\xff'
+        s2k = [i for i, e in enumerate(ev) if _call(e, 'self.s2k.parse') and
+               ((e[2] == ['packet'] and e[3] == {'iv': 'False'}) or (e[2] == ['packet', 'False'] and not e[3]))]
+        take = sl('packet', ('', lin_add('self.header.length', 'len(self.s2k)', -1)))
+        ct = [i for i, e in enumerate(ev) if _store(e, 'self.ct') and e[2] == take]
+        n_ = lin_add('self.header.length', 'len(self.s2k)', -1)
+        dl = [i for i, e in enumerate(ev) if (e[0] == 'del' and e[1] == take) or (_store(e, take) and e[2] in ('C()', "''", '')) or
+              (_store(e, sl('packet', ('', ''))) and e[2] == sl('packet', (n_, '')))]       # del b[:n] / b[:n] = b'' / b[:] = b[n:]
+        lens = [i for i, e in enumerate(ev) if _call(e, 'len') and e[2] == ['self.s2k']] + \
+            [i for i, e in enumerate(ev) if _call(e, 'self.s2k.__len__')]
+        ok = len(ins) == 1 and len(s2k) == 1 and len(ct) == 1 and len(dl) == 1 and ins[0] < s2k[0] < ct[0] <= dl[0] + 1 and \
+            bool(lens) and all(i > s2k[0] for i in lens)      # the specifier's length is only known once it has been parsed
+        rep.check(ok, 'C03.3', 'SKESessionKeyV4.parse', 'usage octet re-inserted, no IV, remainder = header.length - len(s2k)',
+                  'the reader must mirror the writer: one synthetic usage octet stands in for the version octet', where=cp.where,
+                  expected='packet.insert(0, 255); s2k.parse(packet, iv=False); ct = packet[:header.length - len(s2k)] (consumed)',
+                  found=[(e[0], e[1], e[2]) for e in ev if e[0] != 'call' or e[1] in ('packet.insert', 'self.s2k.parse')])
 
 
+# ------------------------------------------------------------------------------------------------ C03.4
 def symenc(rep, prog):
     fe = prog.function('pgpy.symenc', '_encrypt')
     fd = prog.function('pgpy.symenc', '_decrypt')
-    res = {}
-    for f, kind in ((fe, 'encryptor'), (fd, 'decryptor')):
+    for f, kind, arg in ((fe, 'encryptor', 'pt'), (fd, 'decryptor', 'ct')):
         rep.saw(fn=f)
+        name = '_encrypt' if kind == 'encryptor' else '_decrypt'
         for ivgiven in (False, True):
-            sc = Scenario(inline=noinline, args={'iv': Sym('iv', nonnull=True) if ivgiven else Const(None)},
-                          axioms={'alg.is_insecure': False, 'not alg.is_supported': False})
-            rets = [render(s.ret) for s in Interp(prog, sc).run(f) if s.raised is None]
-            res[(kind, ivgiven)] = rets
-    for ivgiven in (False, True):
-        IV = 'iv' if ivgiven else 'REP(C(00);(alg.block_size // 8))'
-        for kind, arg in (('encryptor', 'pt'), ('decryptor', 'ct')):
-            Cc = 'Cipher(alg.cipher(key), modes.CFB(%s), default_backend()).%s()' % (IV, kind)
-            exp = '(%s.update(%s) + %s.finalize())' % (Cc, arg, Cc)
-            got = res[(kind, ivgiven)]
-            rep.check(got == [exp], 'C03.4', '_%s' % ('encrypt' if kind == 'encryptor' else 'decrypt'),
-                      'iv %s: %s' % ('given' if ivgiven else 'default', [g.replace(Cc, 'CIPHER') for g in got]),
+            scen = 'iv %s' % ('given' if ivgiven else 'default')
+            outs = run_roles(prog, f, (arg, 'key', 'alg', 'iv'), args={'iv': Sym('iv', nonnull=True) if ivgiven else Const(None)},
+                             axioms={'alg.is_insecure': False, 'not alg.is_supported': False, 'alg.is_supported': True})
+            rets = [s for s in outs if s.raised is None]
+            ok = len(rets) == 1
+            found = [render(s.ret) for s in rets]
+            if ok:
+                s = rets[0]
+                ctor = taint.calls_named(s, 'Cipher')
+                ca = bind_call(ctor[0], ['algorithm', 'mode', 'backend']) if len(ctor) == 1 else {}
+                ok = len(ctor) == 1 and set(ca) == {'algorithm', 'mode', 'backend'} and ca['algorithm'] == 'alg.cipher(key)' and \
+                    ca['backend'] == 'default_backend()'
+                mcall = [c for c in s.calls if c[0] == 'modes.CFB' and call_text(c) == ca.get('mode')]
+                ok = ok and len(mcall) == 1
+                ma = bind_call(mcall[0], ['initialization_vector']) if ok else {}
+                ok = ok and set(ma) == {'initialization_vector'}
+                if ok and ivgiven:
+                    ok = ma['initialization_vector'] == 'iv'
+                elif ok:
+                    z = taint.zero_octets(ma['initialization_vector'])
+                    ok = z is not None and int_equiv(z, lambda B: B // 8, {'alg.block_size': ('B', BITS)}) is True
+                if ok:
+                    Cc = '%s.%s()' % (call_text(ctor[0]), kind)
+                    ok = concat_parts(render(s.ret)) == ['%s.update(%s)' % (Cc, arg), '%s.finalize()' % Cc]
+                    found = [render(s.ret).replace(Cc, 'CIPHER')]
+            rep.check(ok, 'C03.4', name, '%s: %s' % (scen, [x[:120] for x in found]),
                       'both directions must use the same cipher construction, CFB mode and an all-zero IV of block_size // 8 octets by default',
-                      where=(fe if kind == 'encryptor' else fd).where, expected=exp.replace(Cc, 'CIPHER'),
-                      found=[g.replace(Cc, 'CIPHER') for g in got], scenario='iv %s' % ('given' if ivgiven else 'default'))
+                      where=f.where, expected='CIPHER.update(%s) + CIPHER.finalize(), CIPHER = Cipher(alg.cipher(key), modes.CFB(%s), default_backend()).%s()'
+                      % (arg, 'iv' if ivgiven else '00 * (alg.block_size // 8)', kind), found=found, scenario=scen)
     families.check_cipher_tables(rep, prog, 'C03.4')
+
+
+# ------------------------------------------------------------------------------------------------ C03.5
+def _kdf_args(call):
+    """ConcatKDFHash(algorithm, length, otherinfo, backend) however the arguments were passed."""
+    names = ['algorithm', 'length', 'otherinfo', 'backend']
+    got = dict(zip(names, call[1]))
+    got.update(call[2])
+    return got
 
 
 def ecdh(rep, prog):
     fk = prog.method('pgpy.packet.fields', 'ECKDF', 'derive_key')
     rep.saw(fn=fk)
-    for s in Interp(prog, Scenario(inline=noinline)).run(fk):
-        kd = [c for c in s.calls if c[0] == 'ConcatKDFHash']
+    for s in run_roles(prog, fk, ('self', 's', 'curve', 'pkalg', 'fingerprint')):
+        kd = taint.calls_named(s, 'ConcatKDFHash')
         if len(kd) != 1:
             raise AnalysisError('ECKDF.derive_key: expected one ConcatKDFHash construction')
-        kw = kd[0][2]
-        exp_info = ("SLICE(encoder.encode(curve.value);1;) BYTE(pkalg) C(0301) BYTE(self.halg) BYTE(self.encalg) "
-                    "C(416e6f6e796d6f75732053656e64657220202020) binascii.unhexlify(fingerprint.replace(' ', ''))")
-        rep.check(kw.get('otherinfo') == exp_info, 'C03.5', 'ECKDF.derive_key', 'Param = %s' % kw.get('otherinfo'),
+        kw = _kdf_args(kd[0])
+        exp_info = [sl('encoder.encode(curve.value)', (1, '')), 'BYTE(pkalg)', 'C(0301)', 'BYTE(self.halg)', 'BYTE(self.encalg)',
+                    'C(416e6f6e796d6f75732053656e64657220202020)', "binascii.unhexlify(fingerprint.replace(' ', ''))"]
+        info = [x.replace("''.join(fingerprint.split(' '))", "fingerprint.replace(' ', '')") for x in split_items(kw.get('otherinfo'))]
+        rep.check(info == exp_info, 'C03.5', 'ECKDF.derive_key', 'Param = %s' % ' '.join(info),
                   'KDF parameter block must be OID-len||OID || alg id || 03 01 || KDF hash || KEK alg || "Anonymous Sender    " || fingerprint '
-                  '(RFC 6637 section 8)', where=fk.where, expected=exp_info, found=kw.get('otherinfo'))
+                  '(RFC 6637 section 8)', where=fk.where, expected=' '.join(exp_info), found=' '.join(info))
         rep.check(kw.get('algorithm') == 'getattr(hashes, self.halg.name)()', 'C03.5', 'ECKDF.derive_key', 'hash %s' % kw.get('algorithm'),
                   'the KDF hash must be the one declared in the key\'s KDF parameters', where=fk.where, found=kw.get('algorithm'))
-        rep.check(kw.get('length') == '(self.encalg.key_size // 8)', 'C03.5', 'ECKDF.derive_key', 'length %s' % kw.get('length'),
-                  'the derived KEK length must be the key size of the KEK algorithm declared in the key', where=fk.where,
-                  expected='(self.encalg.key_size // 8)', found=kw.get('length'))
-        r = render(s.ret)
-        rep.check(r.endswith('.derive(s)'), 'C03.5', 'ECKDF.derive_key', 'derive(s)', 'the KDF input is the shared secret', where=fk.where, found=r[-40:])
+        rep.check(int_equiv(kw.get('length'), lambda K: K // 8, {'self.encalg.key_size': ('K', BITS)}) is True, 'C03.5', 'ECKDF.derive_key',
+                  'length %s' % kw.get('length'), 'the derived KEK length must be the key size of the KEK algorithm declared in the key',
+                  where=fk.where, expected='(self.encalg.key_size // 8)', found=kw.get('length'))
+        r = split_args(render(s.ret))
+        rep.check(r is not None and r[0].endswith('.derive') and r[0].startswith('ConcatKDFHash(') and r[1] == ['s'], 'C03.5', 'ECKDF.derive_key',
+                  'derive(s)', 'the KDF input is the shared secret', where=fk.where, found=render(s.ret)[-40:])
     # both directions pass the same roles
     fe = prog.method('pgpy.packet.fields', 'ECDHCipherText', 'encrypt')
     fd = prog.method('pgpy.packet.fields', 'ECDHCipherText', 'decrypt')
     for f, which in ((fe, 'encrypt'), (fd, 'decrypt')):
         rep.saw(fn=f)
-        for s in Interp(prog, Scenario(inline=noinline)).run(f):
-            dk = [c for c in s.calls if c[0].endswith('.kdf.derive_key')]
+        for s in run_roles(prog, f, ('self', 'pk'), vararg=['m']):
+            if s.raised:
+                continue
+            dk = [c for c in s.calls if c[0].endswith('.derive_key')]
             scen = '%s; %s' % (which, '; '.join('%s=%s' % (x[0], x[1]) for x in s.facts))
-            ok = len(dk) == 1 and dk[0][0] == 'pk.keymaterial.kdf.derive_key' and \
-                dk[0][1][1:] == ['pk.keymaterial.oid', 'PubKeyAlgorithm.ECDH', 'pk.fingerprint'] and '.exchange(' in dk[0][1][0]
-            rep.check(ok, 'C03.5', 'ECDHCipherText.%s' % which, 'derive_key(%s)' % (dk[0][1][1:] if dk else None),
+            da = bind_call(dk[0], ['s', 'curve', 'pkalg', 'fingerprint']) if len(dk) == 1 else {}
+            ok = len(dk) == 1 and dk[0][0] == 'pk.keymaterial.kdf.derive_key' and set(da) == {'s', 'curve', 'pkalg', 'fingerprint'} and \
+                [da['curve'], da['pkalg'], da['fingerprint']] == ['pk.keymaterial.oid', 'PubKeyAlgorithm.ECDH', 'pk.fingerprint'] and \
+                (split_args(da['s']) or ('',))[0].endswith('.exchange')
+            rep.check(ok, 'C03.5', 'ECDHCipherText.%s' % which, 'derive_key(%s)' % (da or None),
                       'both directions must derive the KEK from (shared secret, recipient curve, ECDH id, recipient fingerprint) '
                       'with the recipient key\'s own KDF parameters', where=f.where, scenario=scen)
-            pad = [c for c in s.calls if c[0] == 'PKCS7']
-            rep.check(len(pad) == 1 and pad[0][1] == ['64'], 'C03.5', 'ECDHCipherText.%s' % which, 'PKCS7(%s)' % (pad[0][1] if pad else None),
+            pad = taint.calls_named(s, 'PKCS7')
+            rep.check(len(pad) == 1 and bind_call(pad[0], ['block_size']) == {'block_size': '64'}, 'C03.5',
+                      'ECDHCipherText.%s' % which, 'PKCS7(%s)' % (pad[0][1] if pad else None),
                       'the m-value is PKCS#5 padded to a multiple of 8 octets', where=f.where, scenario=scen)
+            P = call_text(pad[0]) if pad else 'PKCS7(64)'
+            KEK = call_text(dk[0]) if dk else '?'
             if which == 'encrypt':
-                w = [c for c in s.calls if c[0] == 'aes_key_wrap']
-                ok = len(w) == 1 and w[0][1][1] == '(PKCS7(64).padder().update(*args[0]) + PKCS7(64).padder().finalize())' and \
-                    w[0][1][0].startswith('pk.keymaterial.kdf.derive_key(')
+                w = taint.calls_named(s, 'aes_key_wrap')
+                ok = len(w) == 1 and len(w[0][1]) >= 2 and \
+                    concat_parts(w[0][1][1]) == ['%s.padder().update(m)' % P, '%s.padder().finalize()' % P] and \
+                    w[0][1][0] == KEK
                 rep.check(ok, 'C03.5', 'ECDHCipherText.encrypt', 'aes_key_wrap(kek, padded m)', 'C = AESKeyWrap(Z, padded m)', where=f.where,
                           scenario=scen, found=w[0][1][1] if w else None)
+                pst = [split_args(taint.expand_objs(s, v)) for p, v, l, _ in s.stores if p.endswith('.p')]
+                x25519 = any(c[0].endswith('X25519PrivateKey.generate') for c in s.calls)
+                exch = [c for c in s.calls if c[0].endswith('.exchange')]
+                EPH = exch[0][0][:-len('.exchange')] if len(exch) == 1 else '?'
+                if x25519:
+                    coords = ['%s.public_key().public_bytes(encoding=serialization.Encoding.Raw, format=serialization.PublicFormat.Raw)' % EPH]
+                    alt = ['%s.public_key().public_bytes(serialization.Encoding.Raw, serialization.PublicFormat.Raw)' % EPH]
+                else:
+                    coords = ['MPI(%s.public_key().public_numbers().%s)' % (EPH, a) for a in 'xy']
+                    alt = coords
+                ok = len(pst) == 1 and pst[0] is not None and pst[0][0] == 'ECPoint.from_values' and len(pst[0][1]) == (3 if x25519 else 4) and \
+                    pst[0][1][0] == 'pk.keymaterial.oid.key_size' and pst[0][1][1] == ('ECPointFormat.Native' if x25519 else 'ECPointFormat.Standard') and \
+                    pst[0][1][2:] in (coords, alt)
+                ret = render(s.ret) if s.ret is not None else None
+                onret = sorted(p for p, v, l, _ in s.stores if p.endswith('.p') or p.endswith('.c')) == sorted(['%s.c' % ret, '%s.p' % ret])
+                rep.check(onret, 'C03.5', 'ECDHCipherText.encrypt', 'C and the point are set on the object returned (%s)' % ret,
+                          'the ciphertext object handed back must be the one that carries the ephemeral point and C', where=f.where, scenario=scen,
+                          found=[p for p, v, l, _ in s.stores])
+                rep.check(ok, 'C03.5', 'ECDHCipherText.encrypt', 'ct.p = %s(%s)' % ((pst[0][0], ', '.join(pst[0][1][:2])) if pst and pst[0] else (None, '')),
+                          'the ephemeral point is encoded for the recipient curve: its bit length, native format for Curve25519 and the '
+                          'uncompressed standard format otherwise, from the x (and y) of the ephemeral public key in that order', where=f.where,
+                          scenario=scen, found=pst[0] if pst else None)
                 cst = [v for p, v, l, _ in s.stores if p.endswith('.c')]
-                rep.check(len(cst) == 1 and cst[0].startswith('aes_key_wrap('), 'C03.5', 'ECDHCipherText.encrypt', 'ct.c', 'the packet carries C',
+                rep.check(len(w) == 1 and cst == [call_text(w[0])], 'C03.5', 'ECDHCipherText.encrypt', 'ct.c', 'the packet carries C',
                           where=f.where, scenario=scen)
+            else:
+                exch = [c for c in s.calls if c[0] == 'pk.keymaterial.__privkey__().exchange']
+                peer = exch[0][1][-1] if len(exch) == 1 and exch[0][1] else ''
+                pn = taint.calls_named(s, 'EllipticCurvePublicNumbers')
+                if pn:
+                    pa = bind_call(pn[0], ['x', 'y', 'curve'])
+                    okp = len(pn) == 1 and pa == {'x': 'self.p.x', 'y': 'self.p.y', 'curve': 'pk.keymaterial.oid.curve()'} and \
+                        peer in ('%s.public_key(default_backend())' % call_text(pn[0]), '%s.public_key()' % call_text(pn[0])) and \
+                        exch[0][1][:-1] == ['ec.ECDH()']
+                else:
+                    okp = peer == 'x25519.X25519PublicKey.from_public_bytes(self.p.x)' and len(exch[0][1]) == 1
+                rep.check(okp, 'C03.5', 'ECDHCipherText.decrypt', 'peer point %s' % peer[:100],
+                          'the shared secret is computed with the ephemeral point of the packet: (x, y) on the recipient curve, or the native x for '
+                          'Curve25519, under the recipient private key', where=f.where, scenario=scen, found=exch[0][1] if exch else None)
+                w = taint.calls_named(s, 'aes_key_unwrap')
+                ok = len(w) == 1 and len(w[0][1]) >= 2 and w[0][1][1] == 'self.c' and w[0][1][0] == KEK
+                U = 'aes_key_unwrap(%s)' % ', '.join(w[0][1]) if w else ''
+                ok = ok and concat_parts(render(s.ret)) == ['%s.unpadder().update(%s)' % (P, U), '%s.unpadder().finalize()' % P]
+                rep.check(ok, 'C03.5', 'ECDHCipherText.decrypt', 'unpad(aes_key_unwrap(kek, C))', 'm = unpad(AESKeyUnwrap(Z, C)) - the inverse of encrypt',
+                          where=f.where, scenario=scen, found=render(s.ret)[:200])
     # ECDH ciphertext codec: MPI(point) || len(C) || C
     cb = prog.method('pgpy.packet.fields', 'ECDHCipherText', '__bytearray__')
-    for s in Interp(prog, Scenario(inline=noinline)).run(cb):
-        r = render(s.ret)
-        rep.check(r == 'self.p.to_mpibytes() BYTE(len(self.c)) self.c', 'C03.5', 'ECDHCipherText.__bytearray__', 'return %s' % r,
+    for s in run_roles(prog, cb, ('self',)):
+        r = split_items(render(s.ret))
+        rep.check(r == ['self.p.to_mpibytes()', 'BYTE(len(self.c))', 'self.c'], 'C03.5',
+                  'ECDHCipherText.__bytearray__', 'return %s' % ' '.join(r),
                   'ECDH session key = MPI(ephemeral point) || one-octet length of C || C (RFC 6637 section 8)', where=cb.where, found=r)
 
 
+# ------------------------------------------------------------------------------------------------ C03.6
 def compression(rep, prog):
     ci = prog.cls('pgpy.constants', 'CompressionAlgorithm')
+    Z = 'zlib.compress(data)'
     table = {  # member -> (compress, decompress) inverse pairs (RFC 4880 9.3: ZIP = raw DEFLATE, ZLIB = RFC 1950, BZ2)
         'Uncompressed': ('data', 'data'),
-        'ZIP': ('SLICE(zlib.compress(data);2;-4)', 'zlib.decompress(data, -15)'),
-        'ZLIB': ('zlib.compress(data)', 'zlib.decompress(data)'),
+        'ZIP': (sl(Z, (2, -4)), 'zlib.decompress(data, -15)'),
+        'ZLIB': (Z, 'zlib.decompress(data)'),
         'BZ2': ('bz2.compress(data)', 'bz2.decompress(data)'),
     }
     mem = ci.enum_members()
@@ -273,7 +572,8 @@ def compression(rep, prog):
             raise AnalysisError('CompressionAlgorithm.%s vanished' % name)
         rep.saw(fn=f)
         for m, pair in table.items():
-            outs = Interp(prog, Scenario(inline=noinline)).run(f, self_val=enum_const(prog, 'CompressionAlgorithm', m))
-            rets = [render(s.ret) for s in outs if s.raised is None]
+            outs = run_roles(prog, f, ('self', 'data'), args={'self': enum_const(prog, 'CompressionAlgorithm', m)})
+            rets = sorted(set(norm_term(taint.qualify_imports(render(s.ret), f.module)).replace(', wbits=', ', ').replace('-zlib.MAX_WBITS', '-15')
+                              for s in outs if s.raised is None))      # zlib.decompress(data, wbits=-15); zlib.MAX_WBITS is 15
             rep.check(rets == [pair[idx]], 'C03.6', 'CompressionAlgorithm.%s' % name, '%s -> %s' % (m, rets),
                       '%s arm of %s must be the inverse of its sibling' % (name, m), where=f.where, expected=pair[idx], found=rets, scenario=m)
